@@ -62,6 +62,7 @@ package dns
 //@   requires 0 <= off
 //@   ensures ok:  ret1 == nil ==> ret0 == off + len(s) && ret0 <= len(msg)
 //@   ensures fail: ret1 != nil ==> ret0 == len(msg)
+//@   ensures octets: ret1 == nil ==> (forall k in 0..len(s) :: msg[off+k] == s[k]) [C01]
 //@   writes msg
 
 //@ func compressionLenSearch [C08]
